@@ -455,6 +455,30 @@ def cli_contracts():
 
 
 # ------------------------------------------------- Any-typed store sites --
+UNMODELLED = "c05!value-of-unmodelled-kind"
+
+
+def _untrusted(pc, goal):
+    """A counter-model that only says 'the value produced by an unmodelled library call is not JSON-able' is not a
+    counter-example by itself: the obligation becomes `unknown` and the native replayer decides (VIOLATION with a
+    failing document, else UNDECIDED)."""
+    seen, stack = set(), [goal]
+    while stack:
+        x = stack.pop()
+        if x.get_id() in seen:
+            continue
+        seen.add(x.get_id())
+        if z3.is_const(x) and x.decl().name().startswith(UNMODELLED):
+            return True
+        stack.extend(x.children())
+    return False
+
+
+from pyvc import solve as _solve
+if _untrusted not in _solve.SAT_UNTRUSTED:
+    _solve.SAT_UNTRUSTED.append(_untrusted)
+
+
 def result_scalar(c, idx=None):
     r = c.result
     if idx is not None:
@@ -462,6 +486,9 @@ def result_scalar(c, idx=None):
             return F
         r = r.items[idx]
     t = c.ex.to_pv(c.st, r)
+    if t is None and isinstance(r, VUnk):
+        c.note = f"the stored value comes from an unmodelled call ({r.tag})"
+        return z3.Bool(fresh_name(UNMODELLED))
     return sp.scalar_ok(t) if t is not None else F
 
 
@@ -506,6 +533,16 @@ def store_site_contracts(reg):
         params=[("cell", p_xlrd_cell()), ("workbook", p_unk())],
         ensures=[("json-able-scalar-into-Any-field", lambda c: result_scalar(c, 0))],
         note="what XlsSheet.data (List[Dict[str, Any]]) receives as value: None/bool/int/float/str only"))
+    from contracts import etree_model
+    from contracts.c02_etree_model import p_elem
+    etree_model.install(reg)
+    out.append(FnContract(
+        target=f"{ODS_PY}::_extract_cell_value", params=[("cell", p_elem())],
+        ensures=[("json-able-scalar-into-Any-field", lambda c: result_scalar(c, 0))],
+        raises=[Raises("Exception", sub=True, label="malformed attribute values (OverflowError of int(inf) etc.): outside C05")],
+        note="what OdsSheet.data (List[List[Any]]) receives: the first component is None/bool/int/float/str on every path "
+             "(the cell is an abstract xml element: every value-type / attribute text)"))
+    EXECUTOR_KW[f"{ODS_PY}::_extract_cell_value"] = {"inline_calls": False, "abstract": True}
     return out
 
 
@@ -712,14 +749,53 @@ def glue(repo, tier):
         dumps = [x for x in ast.walk(mn) if isinstance(x, ast.Call) and ast.unparse(x.func) in ("json.dumps", "json.dump")]
         pay = [x for x in ast.walk(mn) if isinstance(x, ast.Assign) and ast.unparse(x.targets[0]) == "payload"]
         want = "_serialize_unit_results(results, include_binary=include_binary) if args.json_unit else _serialize_results(results, include_binary=include_binary)"
-        ok = len(pay) == 1 and ast.unparse(pay[0].value) == want and len(dumps) == 1 and ast.unparse(dumps[0].args[0]) == "payload" \
-            and "include_binary = bool(args.binary)" in src
-        why = f"payload = {ast.unparse(pay[0].value)[:120] if pay else '?'}; {len(dumps)} json.dump(s) call(s)"
+        # the text written is json.dumps(payload) with the standard encoder's defaults (ensure_ascii: any str, including lone
+        # surrogates from surrogateescape'd names, is written as ASCII), written unchanged to sys.stdout
+        texts = [x for x in ast.walk(mn) if isinstance(x, ast.Assign) and x.value in dumps]
+        tname_ = ast.unparse(texts[0].targets[0]) if len(texts) == 1 else None
+        writes = [ast.unparse(x) for x in ast.walk(mn) if isinstance(x, ast.Call) and ast.unparse(x.func) in ("sys.stdout.write", "print", "sys.stdout.buffer.write")
+                  and any(tname_ in [n_.id for n_ in ast.walk(a_) if isinstance(n_, ast.Name)] for a_ in x.args)]
+        ok = len(pay) == 1 and ast.unparse(pay[0].value) == want and len(dumps) == 1 and ast.unparse(dumps[0]) == "json.dumps(payload)" \
+            and "include_binary = bool(args.binary)" in src and tname_ is not None and writes == [f"sys.stdout.write({tname_})"]
+        why = f"payload = {ast.unparse(pay[0].value)[:100] if pay else '?'}; encoder call(s): {[ast.unparse(x) for x in dumps]}; writes: {writes}"
     obls.append(ground_obligation("C05/cli.py::main/glue#stdout-json-is-the-shaped-payload", ok, why, CLI_PY, kind="glue", backend="ground", definite=False))
     return {"obligations": obls, "functions": [dict(c.fn_info("main"), obligations=1)] if mn is not None else []}
 
 
-EXTRA = [registry, ods_cell_kinds, covers, glue]
+def native_scope(repo, tier):
+    """BOUNDED stand-ins (DESIGN 2.8), one obligation per construct, run on the real code on every check (replay/C05.py):
+    a mismatch is a concrete failing input (violation); finding nothing proves nothing (`bounded-ok`, never discharged).
+    They stand in for what the contracts do not decide: that from_json raises nothing on to_json output; that base64 /
+    json library behaviour is as assumed at block-size boundaries; that __post_init__ normalisations are idempotent;
+    what openpyxl / the ODF parser hand to the cell normalisers; what cli.main writes to an encoded stdout."""
+    root = os.path.dirname(os.path.dirname(os.path.abspath(__file__)))
+    pfx = "C05/replay::native-scope/bounded#"
+    req = {"property": "C05", "obligation": pfx + "all", "all_scopes": True, "repo": repo}
+    try:
+        p = subprocess.run(["/venv/bin/python", os.path.join(root, "replay", "run.py")], input=json.dumps(req), capture_output=True, text=True,
+                           timeout=900, env=dict(os.environ, VERIF_REPO=repo))
+        lines = [l for l in p.stdout.splitlines() if l.startswith("{")]
+        res = json.loads(lines[-1]) if lines else {"error": (p.stderr or p.stdout)[-500:]}
+    except Exception as e:  # noqa
+        res = {"error": str(e)}
+    if "scopes" not in res:
+        return {"obligations": [], "undecided": [{"obligation": pfx + "all", "why": "native scope could not run: " + str(res.get("error", res.get("note")))[:300]}]}
+    obls, und = [], []
+    for name, r in res["scopes"].items():
+        oid = f"{pfx}{name}.BOUNDED"
+        if "error" in r:
+            und.append({"obligation": oid, "why": "native scope crashed: " + r["error"][-300:]})
+            continue
+        f = r.get("failure")
+        o = ground_obligation(oid, not f, "" if not f else f"{f.get('target')}: {json.dumps(f.get('inputs'), default=repr)[:300]} -> {str(f.get('observed'))[:300]}",
+                              "replay/C05.py", kind="bounded", backend="native-replay")
+        o["bounded"] = True
+        o["bound"] = r.get("bound", "")
+        obls.append(o)
+    return {"obligations": obls, "undecided": und}
+
+
+EXTRA = [registry, ods_cell_kinds, covers, glue, native_scope]
 
 
 def recorded_exclusions():
